@@ -3,6 +3,7 @@ package symgo
 // Models added for property C08 (no request can crash the server).
 
 import (
+	"fmt"
 	"go/token"
 	"go/types"
 	"strconv"
@@ -322,6 +323,77 @@ func init() {
 				panic(pathAbort{"unsupported", "context.WithTimeout: package context is not a source root"})
 			}
 			return call(fr.i, fr, token.NoPos, pkg.Func("WithCancel"), []value{args[0]})
+		}
+	}
+}
+
+// Models for C08.encode.
+func init() {
+	// zstd (library): the pooled encoder is an opaque handle, EncodeAll is the identity (as
+	// tooling.CompressZstd in external.go).
+	if externals["(*github.com/mostynb/zstdpool-freelist.EncoderPool).Get"] == nil {
+		externals["(*github.com/mostynb/zstdpool-freelist.EncoderPool).Get"] = func(fr *frame, args []value) value {
+			stub("zstdpool.EncoderPool.Get (model: opaque encoder handle, never fails)")
+			resT := fr.fn.Signature.Results().At(0).Type() // *zstd.Encoder
+			cell := new(value)
+			*cell = zero(resT.Underlying().(*types.Pointer).Elem())
+			return tuple{cell, iface{}}
+		}
+		externals["(*github.com/mostynb/zstdpool-freelist.EncoderPool).Put"] = func(fr *frame, args []value) value { return nil }
+	}
+	if externals["(*github.com/klauspost/compress/zstd.Encoder).EncodeAll"] == nil {
+		externals["(*github.com/klauspost/compress/zstd.Encoder).EncodeAll"] = func(fr *frame, args []value) value {
+			stub("zstd.Encoder.EncodeAll (model: identity)")
+			src, _ := args[1].([]value)
+			dst, _ := args[2].([]value)
+			return append(append([]value{}, dst...), src...)
+		}
+	}
+	// txstatus.Parameters.ParseInstruction: FFI into a Rust library in the ffi build, a stub that
+	// fails in the default build. Any outcome: error, a JSON object, JSON that is not an object.
+	externals["(github.com/rpcpool/yellowstone-faithful/txstatus.Parameters).ParseInstruction"] = func(fr *frame, args []value) value {
+		stub("txstatus.Parameters.ParseInstruction (model: error | JSON object | other JSON)")
+		mk := func(s string) []value {
+			out := make([]value, len(s))
+			for i := 0; i < len(s); i++ {
+				out[i] = uint8(s[i])
+			}
+			return out
+		}
+		switch EX.Choose(3, "ParseInstruction") {
+		case 0:
+			return tuple{[]value(nil), newEngineError("verif: instruction not parsable", nil)}
+		case 1:
+			return tuple{mk(`{"parsed":{},"program":"system"}`), iface{}}
+		}
+		return tuple{mk(` [1]`), iface{}}
+	}
+}
+
+// fmt.Sscanf(str, "%f", &f) (asFloat in multiepoch-getBlock.go): the real function, run natively on
+// the concrete string; only the single-verb float form is modelled.
+func init() {
+	if externals["fmt.Sscanf"] == nil {
+		externals["fmt.Sscanf"] = func(fr *frame, args []value) value {
+			str, ok1 := args[0].(string)
+			format, ok2 := args[1].(string)
+			rest, _ := args[2].([]value)
+			if !ok1 || !ok2 || format != "%f" || len(rest) != 1 {
+				panic(pathAbort{"unsupported", "fmt.Sscanf: only Sscanf(s, \"%f\", &float64) is modelled"})
+			}
+			target, ok := rest[0].(iface).v.(*value)
+			if !ok || target == nil {
+				panic(pathAbort{"unsupported", "fmt.Sscanf: target is not a *float64"})
+			}
+			var f float64
+			n, err := fmt.Sscanf(str, "%f", &f)
+			if n == 1 {
+				*target = f
+			}
+			if err != nil {
+				return tuple{n, newEngineError(err.Error(), nil)}
+			}
+			return tuple{n, iface{}}
 		}
 	}
 }
